@@ -19,8 +19,12 @@ type Prog struct {
 	// panic position is not checked: the statement is silent about whether a
 	// deferred native call is located at the defer or at the return).
 	DeferredPoints map[int]bool
-	Features       []string
-	Stmts          int
+	// RepanicPoints are the ids of `panic(r)` statements that panic again
+	// with a recovered value (the position of such a panic is the line of
+	// that statement, not the one its value names).
+	RepanicPoints map[int]bool
+	Features      []string
+	Stmts         int
 }
 
 // FileOf returns the file path of a statement id.
@@ -106,7 +110,13 @@ func (g *gen) body(b *builder, ind, fn, depth int, deferred bool) {
 			b.emit(ind, "h.Rec(%d, recover())", b.id())
 			continue
 		}
-		switch s.Pick(6, 2, 2, 4, 3, 3, 1, 2, 2, 1, 1, 2, 2) {
+		switch s.Pick(6, 2, 2, 4, 3, 3, 1, 2, 2, 1, 1, 2, 2, 4) {
+		case 13:
+			if depth < 2 && g.feature("panic-stmt", 3, 4) && g.feature("panic-ladder", 1, 2) {
+				g.ladder(b, ind)
+			} else {
+				b.emit(ind, "h.Point(%d)", b.id())
+			}
 		case 12:
 			if g.o.GoNative && !g.inSub && g.feature("go-native", 1, 2) {
 				b.emit(ind, "go h.Async(%d)", b.id())
@@ -192,6 +202,52 @@ func (g *gen) body(b *builder, ind, fn, depth int, deferred bool) {
 	}
 }
 
+// ladder emits a function literal, called at once, that panics with two to
+// four deferred closures pending, each of which recovers, panics again (a
+// panic superseding the one in progress), does both, recovers a panic of its
+// own in a nested call, or does nothing: the situations in which the chain of
+// panics in progress grows and shrinks.
+func (g *gen) ladder(b *builder, ind int) {
+	s := g.s
+	b.emit(ind, "func() {")
+	g.inDef++
+	for k, n := 0, s.Range(2, 4); k < n; k++ {
+		b.emit(ind+1, "defer func() {")
+		switch s.N(7) {
+		case 0:
+			b.emit(ind+2, "h.Rec(%d, recover())", b.id())
+		case 1:
+			b.emit(ind+2, "panic(\"s%d\")", b.id())
+		case 2:
+			b.emit(ind+2, "h.Rec(%d, recover())", b.id())
+			b.emit(ind+2, "panic(%d)", b.id())
+		case 3:
+			b.emit(ind+2, "func() {")
+			b.emit(ind+3, "defer func() { h.Rec(%d, recover()) }()", b.id())
+			b.emit(ind+3, "panic(\"s%d\")", b.id())
+			b.emit(ind+2, "}()")
+			b.emit(ind+2, "h.Point(%d)", b.id())
+		case 4:
+			b.emit(ind+2, "h.Point(%d)", b.id())
+		case 5:
+			b.emit(ind+2, "defer func() { panic(h.Err(%d)) }()", b.id())
+			b.emit(ind+2, "h.Rec(%d, recover())", b.id())
+		case 6:
+			b.emit(ind+2, "r := recover()")
+			b.emit(ind+2, "h.Rec(%d, r)", b.id())
+			b.emit(ind+2, "if r != nil {")
+			g.p.RepanicPoints[b.id()] = true
+			b.emit(ind+3, "panic(r)")
+			b.emit(ind+2, "}")
+		}
+		b.emit(ind+1, "}()")
+	}
+	g.inDef--
+	b.emit(ind+1, "h.Point(%d)", b.id())
+	b.emit(ind+1, "panic(\"s%d\")", b.id())
+	b.emit(ind, "}()")
+}
+
 // call emits a call (optionally deferred) to a function with a larger index,
 // a method or a sub-package function.
 func (g *gen) call(b *builder, ind, fn int, prefix string) {
@@ -227,7 +283,7 @@ func (g *gen) call(b *builder, ind, fn int, prefix string) {
 
 // Gen generates a program.
 func Gen(s *choice.Stream, o Options) *Prog {
-	p := &Prog{Files: map[string]string{}, DeferredPoints: map[int]bool{}}
+	p := &Prog{Files: map[string]string{}, DeferredPoints: map[int]bool{}, RepanicPoints: map[int]bool{}}
 	g := &gen{s: s, o: o, p: p, feat: map[string]bool{}, budget: 14 + s.N(30)}
 	g.nfuncs = s.Range(0, 4)
 	if g.feature("funcvars", 1, 2) {
